@@ -92,6 +92,8 @@ type world struct {
 	cancelAt     atomic.Int64
 	failAt       atomic.Int64 // the failAt-th batch commit of the current event fails (injected write error)
 	failFired    atomic.Bool
+	// failStore: the next block commit of the pruning node (outside pruner events) fails once
+	failStore atomic.Bool
 	// after a prune stopped by a failed batch commit the live node's in-memory floor stays at
 	// the prune target (<= bound) until the next restart: state refusals in [on-disk floor-1,
 	// refuseBelow-1) are the node reporting "pruned" for blocks its floor covers - counted, not judged
@@ -272,6 +274,26 @@ func (w *world) storeNext() bool {
 	w.gate.Lock()
 	bc := w.bc.Load()
 	cm, err := bc.SanityCheckNewHeight(b.Block, b.SU, b.Classes)
+	if err == nil && w.cfg.Fault && w.pos > 2 && w.rng.IntN(6) == 0 {
+		// the commit of this block fails once (an injected write error, as C05 injects them on
+		// non-pruning nodes): the call must report it, and the very same block must then be accepted -
+		// on a pruning node the running event filter is re-initialised from a pruned database in between
+		w.failStore.Store(true)
+		ferr := bc.Store(b.Block, cm, b.SU, b.Classes)
+		if w.failStore.Swap(false) {
+			w.r.Count("store_commit_fault_not_reached", 1)
+		} else {
+			w.r.Count("stores_with_failing_commit_on_the_pruning_node", 1)
+			if ferr == nil {
+				f, _ := pruner.OldestRetainedBlock(w.rec)
+				w.gate.Unlock()
+				w.violation("store-reports-success-although-its-commit-failed", fmt.Sprintf("pruned node (floor %d): Store of block %d returned nil while the batch commit failed", f, b.Number()), nil)
+				w.dead = true
+				return false
+			}
+			cm, err = bc.SanityCheckNewHeight(b.Block, b.SU, b.Classes)
+		}
+	}
 	if err == nil {
 		err = bc.Store(b.Block, cm, b.SU, b.Classes)
 	}
@@ -595,6 +617,9 @@ func runScenario(r *lib.Run, idx int) {
 	}
 	w.rec = chain.NewRecDB(inner)
 	w.rec.FailCommitIf = func(ws chain.WriteSet) bool {
+		if !ws.Direct && !w.inEvent.Load() && w.failStore.CompareAndSwap(true, false) {
+			return true
+		}
 		if ws.Direct || !w.inEvent.Load() {
 			return false
 		}
